@@ -5,7 +5,8 @@ under strace; the ordered list of its file-system effects on the rope folder is 
 the system-call log (ground truth of what reaches the OS, including Python's buffering order).
 Crash model = process death: the reachable disk states are exactly the program-order prefixes
 of that effect list, with every byte prefix of every write.  Every such state is materialised
-and the project is reopened on it with the real code."""
+and the project is reopened on it with the real code; then an ordinary session (one change, normal
+close) runs on top of the crash state and the project is reopened once more."""
 import json
 import os
 import re
@@ -323,6 +324,21 @@ class C18(Check):
             d = materialise(files)
             try:
                 prob, msg, hv, ov = self._observe(d)
+                prob2 = None
+                if prob is None:
+                    # life goes on after the crash: an ordinary session on top of the crash state saves again
+                    # (left-over temporary files are part of that state), and the result must open as well
+                    try:
+                        p2 = Project(d, save_history=True, save_objectdb=True)
+                        from ..histops import apply_op
+                        apply_op(p2, ("CF", "", "after_crash.py"), "after-crash")
+                        hv2 = view_history(p2)
+                        p2.close()
+                        prob2, msg2, hv3, ov3 = self._observe(d)
+                        if prob2 is None and hv3 != hv2:
+                            prob2, msg2 = "history-differs", "saved %r, reopened %r" % (hv2, hv3)
+                    except Exception as e:
+                        prob2, msg2 = "session-raises:" + type(e).__name__, repr(e)[:300]
             finally:
                 self.scratch.drop(d)
             feats = ["at:" + where[0], "file:" + where[1]] + (["partial-write"] if where[2] else [])
@@ -332,6 +348,8 @@ class C18(Check):
                 res["fails"].append({"kind": prob, "features": feats, "detail": dict(detail, message=msg), "size": where[3]})
                 res["out"][prob] = res["out"].get(prob, 0) + 1
                 return
+            if prob2:
+                res["fails"].append({"kind": "after-crash-session:" + prob2, "features": feats, "detail": dict(detail, message=msg2), "size": where[3]})
             hk = "new" if hv == hv_new else "old" if hv == hv_old else "empty" if hv == empty_h else "torn"
             ok_ = "unknown" if ov is None else "new" if ov == ov_new else "old" if ov == ov_old else "empty" if ov == {} else "torn"
             res["out"]["history=%s objectdb=%s" % (hk, ok_)] = res["out"].get("history=%s objectdb=%s" % (hk, ok_), 0) + 1
